@@ -78,6 +78,28 @@ theorem refs_of_ckpt {x : Inst} {c : Ckpt} {t : Tbl} (hc : c ∈ x.ckpts) (ht : 
 
 /-! ## files removed by a step -/
 
+theorem mem_dropOne {t : Tbl} {u : Path} : ∀ {cur : List Tbl}, t ∈ dropOne cur u → t ∈ cur := by
+  intro cur
+  induction cur with
+  | nil => intro h; simp [dropOne] at h
+  | cons a as ih =>
+    intro h
+    simp only [dropOne] at h
+    split at h
+    · exact List.mem_cons_of_mem _ h
+    · rcases List.mem_cons.mp h with rfl | h
+      · exact List.mem_cons_self ..
+      · exact List.mem_cons_of_mem _ (ih h)
+
+theorem mem_dropTables {t : Tbl} : ∀ {rm : List Path} {cur : List Tbl}, t ∈ dropTables cur rm → t ∈ cur := by
+  intro rm
+  induction rm with
+  | nil => intro cur h; exact h
+  | cons u us ih =>
+    intro cur h
+    have : t ∈ dropOne cur u := ih (by simpa [dropTables] using h)
+    exact mem_dropOne this
+
 theorem mem_rmFile {fs : List File} {f g : File} : g ∈ rmFile fs f ↔ g ∈ fs ∧ g ≠ f := by
   simp [rmFile]
 
@@ -260,16 +282,16 @@ theorem step_inv1 {s s' : State} {x : Inst} {a : Act} (inv : Inv1 s x) (hsc : in
       split at hstep
       · rename_i hc
         injection hstep with hstep; subst hstep
-        refine ⟨{ x with current := x.current.filter (fun t => !rm.contains t.uri) ++ add,
+        refine ⟨{ x with current := dropTables x.current rm ++ add,
                          created := uris add ++ x.created, made := uris add ++ x.made }, ?_⟩
-        have := inv1_tables (x' := { x with current := x.current.filter (fun t => !rm.contains t.uri) ++ add,
+        have := inv1_tables (x' := { x with current := dropTables x.current rm ++ add,
                                              created := uris add ++ x.created, made := uris add ++ x.made })
           (F := (uris add).map File.sst ++ s.files) (U := uris add ++ s.used) inv rfl rfl inv.norel
           (fun f hf => List.mem_append_right _ hf) (fun u hu => List.mem_append_right _ hu)
           (by
             intro hl t' ht'
             rcases List.mem_append.mp ht' with ht' | ht'
-            · exact Or.inl ⟨hc.1, (List.mem_filter.mp ht').1⟩
+            · exact Or.inl ⟨hc.1, (mem_dropTables ht')⟩
             · exact Or.inr (List.mem_append_left _ (List.mem_map.mpr ⟨t'.uri, List.mem_map.mpr ⟨t', ht', rfl⟩, rfl⟩)))
         simpa [setInst, hs] using this
       · simp at hstep
@@ -761,7 +783,7 @@ theorem step_frame {s s' : State} {a : Act} {j : Nat} {x : Inst} (h : step s a =
         refine frame_set hi hj rfl (fun _ hu => List.mem_append_right _ hu) ?_ (fun _ hc => Or.inl hc)
         intro t' ht'
         rcases List.mem_append.mp ht' with ht' | ht'
-        · exact Or.inl (List.mem_filter.mp ht').1
+        · exact Or.inl (mem_dropTables ht')
         · exact Or.inr (allFresh_not_mem hc.2.1 _ (List.mem_map.mpr ⟨t', ht', rfl⟩))
       · simp at h
   | ckpt i id wal =>
